@@ -179,7 +179,9 @@ impl ObjectReceiver {
     fn push_to_block(&mut self, pkt: &alc::AlcPkt, now: std::time::SystemTime) -> Result<()> {
         self.push_to_block2(pkt, now)?;
         if pkt.lct.close_object {
-            if self.state == State::Receiving {
+            // Without a writer the FDT has not been attached yet: the object may already be
+            // complete in memory, only an FDT can tell
+            if self.state == State::Receiving && self.object_writer.is_some() {
                 self.error("No more packet for this object", now, true);
             }
         }
